@@ -3,7 +3,7 @@ _REAL = ['libxalan-c (rebuilt from /repo working tree, clang -O1 -DNDEBUG, ASan+
 PROP = dict(
     driver='c03', flavour='asan', level='exploration',
     technique='deterministic simulation: seeded fault operators (truncate/flip/zero/tear/dup/swap/read-error/short-read) on valid inputs in transit, failing sinks and resolvers, simulated clock modes; per-op oracle + bounded-liveness follow-up on the same transformer; ASan/UBSan',
-    level_text='Seeded exploration: valid generated (stylesheet, document, resources) tuples are pushed through every byte-taking entry point (transform overloads in 8 source x 4 stylesheet x 5 target forms, compileStylesheet, parseSource native/Xerces, parameter expressions, XPathEvaluator, both C APIs) while one fault per op hits the bytes in transit, the sink, the resolver or the clock. Oracles: call returns; non-zero status has a message; only documented exceptions escape; no ASan/UBSan report; benign perturbations change nothing; the same transformer then performs a known-good transformation with the reference output; memory-manager balance at destruction. XPath expressions for the evaluator, the C API and parameter expressions come from a fixed pool or are drawn from the XPath grammar (type-correct, or "wild": wrong arity, unknown names, extreme literals); a compiled XPath the caller keeps must give the same answer after a later createXPath() of the same evaluator failed. The evaluator runs over the native source tree or over a Xerces DOM parsed and wrapped by XercesParserLiaison, with the document given back through destroyDocument() in half of the operations. LeakSanitizer runs after every run for memory obtained outside the simulated manager (a leak counts when a library frame is in its stack, or when the stack is cut off inside the C++ runtime with no Xerces-C/ICU frame in sight); blocks of an adopted DOM document still outstanding count against the adopter. An empty string as the expression of a declared parameter must be refused.',
+    level_text='Seeded exploration: valid generated (stylesheet, document, resources) tuples are pushed through every byte-taking entry point (transform overloads in 8 source x 4 stylesheet x 5 target forms, compileStylesheet, parseSource native/Xerces, parameter expressions, XPathEvaluator, both C APIs) while one fault per op hits the bytes in transit, the sink, the resolver or the clock. Oracles: call returns; non-zero status has a message; only documented exceptions escape; no ASan/UBSan report; benign perturbations change nothing; the same transformer then performs a known-good transformation with the reference output; memory-manager balance at destruction. XPath expressions for the evaluator, the C API and parameter expressions come from a fixed pool or are drawn from the XPath grammar (type-correct, or "wild": wrong arity, unknown names, extreme literals); a compiled XPath the caller keeps must give the same answer after a later createXPath() of the same evaluator failed. The evaluator runs over the native source tree or over a Xerces DOM parsed and wrapped by XercesParserLiaison, with the document given back through destroyDocument() in half of the operations. LeakSanitizer runs after every run for memory obtained outside the simulated manager (a leak counts when a library frame is in its stack, or when the stack is cut off inside the C++ runtime with no Xerces-C/ICU frame in sight); blocks of an adopted DOM document still outstanding count against the adopter. An empty string as the expression of a declared parameter must be refused. The XPath C API is told the expression is in UTF-8, UTF-16, ISO-8859-1, US-ASCII or an unknown encoding.',
     level_note='Scoped (DESIGN.md section 2): inputs are those reachable by fault operators from valid seeds plus fixed numeric/nesting extremes, not all byte strings. Xerces-C/ICU uninstrumented. Nesting capped at 200 so stack exhaustion inside Xerces is not provoked.',
     design_ref='DESIGN.md section 7 (C03), 3.2, 3.3, 5',
     run_timeout=150,
